@@ -111,6 +111,8 @@ def eval_pipeline(case) -> Outcome:
     P.classify_site(out, an)
     P.root_causes(out, an)
     opts = case.get("options") or {}
+    if case.get("spelling") and any(case["spelling"]):
+        out.labels.add("value-with-unit-spellings")
     for path, zone, c in an.zones:
         t = an.target(zone, S.DI)
         if t is None:
@@ -132,12 +134,15 @@ def eval_pipeline(case) -> Outcome:
         # --- Bath reference from streams + reported utility duties
         hot = [(float(s.tmin), float(s.tmax), float(s.cp), float(s.htc)) for s in c.hot]
         cold = [(float(s.tmin), float(s.tmax), float(s.cp), float(s.htc)) for s in c.cold]
-        for u in t.hot_utilities:
-            if u.heat_flow > 1e-9:
-                hot.append((float(u.t_min), float(u.t_max), float(u.heat_flow) / float(u.t_max - u.t_min), float(u.htc)))
-        for u in t.cold_utilities:
-            if u.heat_flow > 1e-9:
-                cold.append((float(u.t_min), float(u.t_max), float(u.heat_flow) / float(u.t_max - u.t_min), float(u.htc)))
+        # film coefficients come from the input (by utility name), not from what the run reports for them
+        given = {u["name"]: float(u["htc"]) for u in case.get("utilities") or [] if u.get("htc")}
+        for side, us in ((hot, t.hot_utilities), (cold, t.cold_utilities)):
+            for u in us:
+                h_in = given.get(u.name, float(u.htc))
+                if u.name in given and not abs(float(u.htc) - h_in) <= 1e-12 * h_in:
+                    out.fail("C15.utility_film_coefficient", f"{where}: utility {u.name} supplied with htc {h_in!r} is used with {float(u.htc)!r}")
+                if u.heat_flow > 1e-9:
+                    side.append((float(u.t_min), float(u.t_max), float(u.heat_flow) / float(u.t_max - u.t_min), h_in))
         if not hot or not cold:
             continue
         ref, n_int, gap = bath_area(hot, cold)
@@ -228,7 +233,11 @@ def area_problem(draw, tier):
     opts = {"DO_AREA_TARGETING": True, "DT_CONT": draw(st.sampled_from([2.5, 5.0, 10.0]))}
     if draw(st.booleans()):
         opts.update({"FIXED_COST": draw(st.sampled_from([0.0, 1000.0, 8000.0])), "VARIABLE_COST": draw(st.sampled_from([100.0, 1200.0, 10000.0])), "COST_EXP": draw(st.sampled_from([0.5, 0.6, 0.81, 1.0])), "DISCOUNT_RATE": draw(st.sampled_from([0.001, 0.01, 0.07, 0.2, 1.0, 1.5, 4.0])), "SERV_LIFE": draw(st.sampled_from([1.0, 5.0, 20.0, 50.0]))})
-    return {"streams": ss, "utilities": us, "options": opts}
+    case = {"streams": ss, "utilities": us, "options": opts}
+    if draw(st.integers(0, 2)) == 0:
+        # every number independently a bare float or a value-with-unit object (S.apply_spelling); the reference uses the bare numbers
+        case["spelling"] = draw(st.lists(st.integers(0, 3), min_size=3, max_size=11))
+    return case
 
 
 def strat_cost(tier):
